@@ -282,7 +282,7 @@ def entity_choices(fo: oracle.FormOracle, itype, mode="full"):
 # one configuration: build, compile, run every (type, id) x geometry x entity x code, compare with R
 # ---------------------------------------------------------------------------------------------------
 def check_form_against_oracle(form, mesh, cell, geom, scalar, options, seed, entity_mode="sweep", instances=("ref", "aff", "rev"),
-                              cmplx_data=None, max_calls=None, keep=False, poison=False, check_positions=False, oracle_degree_shift=0):
+                              cmplx_data=None, max_calls=None, keep=False, poison=False, check_positions=False, oracle_degree_shift=0, comp=None):
     """Returns dict(status, evaluations, nontrivial, maxerr, failures=[...], notes)."""
     cmplx = "complex" in scalar
     if cmplx_data is None:
@@ -294,10 +294,13 @@ def check_form_against_oracle(form, mesh, cell, geom, scalar, options, seed, ent
         res["status"] = "rejected"
         res["why"] = f"UFL: {type(e).__name__}: {str(e)[:120]}"
         return res
-    comp = None
+    given_comp = comp is not None
+    if given_comp:
+        keep = True
     try:
         try:
-            comp = Compiled(form, scalar, options)
+            if comp is None:
+                comp = Compiled(form, scalar, options)
         except Exception as e:
             # distinguish rejection (python exception before the C compiler) from invalid C (C19's business)
             import cffi as _cffi
